@@ -91,6 +91,8 @@ def encode(kind, tree, task=None):
         return f
     if kind == 'mem':
         return MemVal(tree)
+    if kind == 'memplain':       # a plain value kept in memory only (Meta.data_class = InMemoryData)
+        return tree
     raise ValueError(kind)
 
 
@@ -132,15 +134,19 @@ def decode(kind, value):
         return json.loads(value.axes[0].get_title())
     if kind == 'mem':
         return value.tree
+    if kind == 'memplain':
+        if not isinstance(value, dict):
+            raise ValueError(f'an in-memory task returned {type(value).__name__} instead of the value of its run')
+        return value
     raise ValueError(kind)
 
 
 RETURN_TYPES = {
     'json': dict, 'numpy': np.ndarray, 'pandas': pd.DataFrame, 'generated': Generator, 'lazy': GeneratedDataLazy,
-    'listnpy': ListOfNumpyData, 'dir': DirData, 'continues': ContinuesData, 'mem': MemVal, 'figure': None,
+    'listnpy': ListOfNumpyData, 'dir': DirData, 'continues': ContinuesData, 'mem': MemVal, 'figure': None, 'memplain': dict,
 }
 EXT = {'json': '.json', 'numpy': '.npy', 'pandas': '.pd', 'generated': '.jsonl', 'lazy': '.jsonl',
-       'listnpy': '', 'dir': '', 'continues': '', 'mem': None, 'figure': '.pickle'}
+       'listnpy': '', 'dir': '', 'continues': '', 'mem': None, 'figure': '.pickle', 'memplain': None}
 
 
 def body(task, ins, params):
@@ -203,7 +209,7 @@ def body(task, ins, params):
     if late is not None:
         task.save_to_run_info(late)
     if mode == 'mistyped':
-        return Unserializable() if kind != 'mem' else 5
+        return Unserializable() if kind not in ('mem', 'memplain') else 5
     if mode == 'unserializable':
         if kind == 'json':
             return {'x': Unserializable()}
@@ -286,6 +292,8 @@ def make_task_class(spec, module_name='vgen'):
     run = ns['run']
     run.__annotations__['return'] = RETURN_TYPES[spec['kind']] or __import__('pylab').Figure
     meta = {'name': name}
+    if spec['kind'] == 'memplain':
+        meta['data_class'] = InMemoryData
     if group:
         meta['task_group'] = group
     params = []
